@@ -110,6 +110,14 @@ local notation "I" => Info.default df yf year century
 @[simp] theorem wd_PM : (I).weekdayOf ['P', 'M'] = none := by tbl
 @[simp] theorem mo_PM : (I).monthOf ['P', 'M'] = none := by tbl
 @[simp] theorem ap_PM : (I).ampmOf ['P', 'M'] = some 1 := by tbl
+@[simp] theorem hms_am : (I).hmsOf ['a', 'm'] = none := by tbl
+@[simp] theorem hms_pm : (I).hmsOf ['p', 'm'] = none := by tbl
+@[simp] theorem hms_AM : (I).hmsOf ['A', 'M'] = none := by tbl
+@[simp] theorem hms_PM : (I).hmsOf ['P', 'M'] = none := by tbl
+@[simp] theorem jmp_am : (I).isJump ['a', 'm'] = false := by tbl
+@[simp] theorem jmp_pm : (I).isJump ['p', 'm'] = false := by tbl
+@[simp] theorem jmp_AM : (I).isJump ['A', 'M'] = false := by tbl
+@[simp] theorem jmp_PM : (I).isJump ['P', 'M'] = false := by tbl
 end
 section
 variable (cls : Char → CClass) [AsciiOK cls]
